@@ -1,4 +1,4 @@
-import Holpy.C07.Model
+import Holpy.C07.Base
 /-
 C07 — model of the type printer (`get_ast_type` + `print_ast`) and of the rule `type` of the grammar
 in syntax/parser.py.  Import-free.
@@ -20,10 +20,56 @@ inductive Ty
   /-- type constructor applied to its arguments (`fun` with two arguments is `fn`) -/
   | con (name : List Nat) (args : TyList)
   | fn (a b : Ty)
+  deriving Repr
 inductive TyList
   | nil
   | cons (t : Ty) (ts : TyList)
+  deriving Repr
 end
+
+instance : Inhabited Ty := ⟨.tvar []⟩
+
+mutual
+/-- decidable equality, by hand (mutual inductive) -/
+def Ty.decEq : (a b : Ty) → Decidable (a = b)
+  | .tvar s, .tvar t => if h : s = t then isTrue (by rw [h]) else isFalse (fun e => by cases e; exact h rfl)
+  | .stvar s, .stvar t => if h : s = t then isTrue (by rw [h]) else isFalse (fun e => by cases e; exact h rfl)
+  | .con n as, .con m bs =>
+    if h : n = m then
+      match TyList.decEq as bs with
+      | isTrue h2 => isTrue (by rw [h, h2])
+      | isFalse h2 => isFalse (fun e => by cases e; exact h2 rfl)
+    else isFalse (fun e => by cases e; exact h rfl)
+  | .fn a b, .fn c d =>
+    match Ty.decEq a c, Ty.decEq b d with
+    | isTrue h1, isTrue h2 => isTrue (by rw [h1, h2])
+    | isFalse h1, _ => isFalse (fun e => by cases e; exact h1 rfl)
+    | _, isFalse h2 => isFalse (fun e => by cases e; exact h2 rfl)
+  | .tvar _, .stvar _ => isFalse (fun e => by cases e)
+  | .tvar _, .con _ _ => isFalse (fun e => by cases e)
+  | .tvar _, .fn _ _ => isFalse (fun e => by cases e)
+  | .stvar _, .tvar _ => isFalse (fun e => by cases e)
+  | .stvar _, .con _ _ => isFalse (fun e => by cases e)
+  | .stvar _, .fn _ _ => isFalse (fun e => by cases e)
+  | .con _ _, .tvar _ => isFalse (fun e => by cases e)
+  | .con _ _, .stvar _ => isFalse (fun e => by cases e)
+  | .con _ _, .fn _ _ => isFalse (fun e => by cases e)
+  | .fn _ _, .tvar _ => isFalse (fun e => by cases e)
+  | .fn _ _, .stvar _ => isFalse (fun e => by cases e)
+  | .fn _ _, .con _ _ => isFalse (fun e => by cases e)
+def TyList.decEq : (a b : TyList) → Decidable (a = b)
+  | .nil, .nil => isTrue rfl
+  | .cons t ts, .cons u us =>
+    match Ty.decEq t u, TyList.decEq ts us with
+    | isTrue h1, isTrue h2 => isTrue (by rw [h1, h2])
+    | isFalse h1, _ => isFalse (fun e => by cases e; exact h1 rfl)
+    | _, isFalse h2 => isFalse (fun e => by cases e; exact h2 rfl)
+  | .nil, .cons _ _ => isFalse (fun e => by cases e)
+  | .cons _ _, .nil => isFalse (fun e => by cases e)
+end
+
+instance : DecidableEq Ty := Ty.decEq
+instance : DecidableEq TyList := TyList.decEq
 
 /-- symbol ids (indices into the terminal list) of the type syntax -/
 structure TySyms where
